@@ -10,7 +10,7 @@ domain, when it recovers different objects / trailer / version than were saved, 
 incremental file does not start with the previous file verbatim.
 Negative controls (documents outside the domain and byte-level damage of real output) must be
 REJECTED by the strict reader with the expected rule: they keep the oracle honest on every run."""
-import re, time
+import os, re, time
 import propcheck, vlib
 from sxg import *
 from objgen import ObjGen, RealSource, rbytes
@@ -485,7 +485,12 @@ def run(ctx):
     spec = SPEC
     assumptions = list(vlib.BASE_TRUSTED) + list(spec['extra_trusted'])
     cov = {'trusted_base': assumptions, 'samples': []}
-    ok, tlog = vlib.translate(['Lex', 'SaveFmt', 'Consts'])
+    if os.environ.get('C03_NO_TRANSLATE'):
+        # hand-made mutation trials against a scratch worktree: do not regenerate the shared coq/Gen files
+        ok, tlog = True, ''
+        ctx.notes.append('translator skipped (C03_NO_TRANSLATE)')
+    else:
+        ok, tlog = vlib.translate(['Lex', 'SaveFmt', 'Consts'])
     if not ok:
         ctx.notes.append('translator failed: ' + tlog[-300:])
     ob = vlib.check_obligations(prop, spec['allowed_axioms']) if ok else \
@@ -622,11 +627,29 @@ def replay(ctx, payload):
     return 1 if v.startswith('FAIL') or v.startswith('CONTROL') else 0
 
 
-PARTIAL_NOTE = 'theorems proved so far are about the strict reader itself (soundness of acceptance); the theorems tying Model/Save.v to it are under construction'
+PARTIAL_NOTE = ('proved: soundness of the strict reader (what acceptance means) and rung 1 about Model/Save.v (20-byte entries, startxref exact, '
+                'offsets exact for every recorded entry, stream Length given the dictionary round trip); NOT proved: the whole-file theorem '
+                'strict_load (save x d) = Some (sdoc_of d) in general (two computed instances only), the object-level round trip of the strict '
+                'tokenizer, the incremental variant, all_bytes_accounted as a theorem about the model (it is enforced at run time on every produced file)')
 
 MANIFEST = {
-    'level_text': 'placeholder',
-    'level_note': 'placeholder',
-    'technique': 'Coq specification (strict reader) extracted and run on the real output + proofs',
+    'level_text': 'The reference reader of the property is a Coq specification (Spec/StrictReader.v, written from ISO 32000-1 7.2/7.3/7.5, sharing '
+                  'no definition with lopdf models); it is extracted and run on the bytes the real Document::save_to / IncrementalDocument::save_to '
+                  'produce for generated documents (both cross-reference formats, plain and 1-3 incremental updates): a file is accepted only if header '
+                  'and binary comment, startxref target, 20-byte entries, W/Index/Length consistency, exact entry offsets with matching id/gen, stream '
+                  'Length, Size, the Prev chain and a gap-free, overlap-free tiling of every byte hold, and the recovered objects/trailer/version equal '
+                  'what was saved. Machine-checked proofs: (1) acceptance by that reader implies each of these facts (C03_accept_sound, '
+                  'C03_entry_20_bytes, C03_subsection_exact, C03_xref_stream_consistent, C03_stream_lengths, C03_chain_covers/disjoint); (2) about the '
+                  'writer model Model/Save.v: every table entry it prints is a valid 20-byte entry with the same numbers, the number after startxref '
+                  'is found from the end of the file and is the offset of the xref keyword / XRef stream header, every recorded entry holds the exact '
+                  'offset of "id gen obj" as the strict reader recognises it and every written object has one (both formats, body <= 2^32 bytes), '
+                  'stream content is taken exactly by Length given the dictionary round trip (partial).',
+    'level_note': 'Partial: the whole-file theorem strict_load (save x d) = Some (sdoc_of d) is proved only for two computed instances, not in general '
+                  '(missing: object-level round trip of the strict tokenizer against Writer.write_object and the composition / span arithmetic); no '
+                  'theorem about the incremental writer model; "every byte accounted for" is enforced by the extracted reader at run time on every '
+                  'produced file, not proved about the model. Trusted: Coq kernel; extraction/OCaml driver; Rust harness; Python comparison of '
+                  'recovered and saved objects (numbers by value); Model/Save.v corresponds to the crate as far as ./check C01 exercises it. '
+                  'No axioms (Print Assumptions: closed for all 17 theorems).',
+    'technique': 'Coq specification extracted and run on the real output (spec-as-oracle) + Coq proofs of spec soundness and of writer-model/spec agreement',
     'design_ref': 'DESIGN.md 6 C03',
 }
